@@ -298,8 +298,18 @@ func (c *Client) Stop() error {
 	var sendErr error
 	// Check if protocol is already done before sending Done message
 	if !c.IsDone() {
+		// Sending Done is best-effort. The send queue may be full of pipelined
+		// requests that cannot go out before the server replies, and the message
+		// handlers cannot process replies while we hold lifecycleMutex, so we must
+		// not wait for room in the queue without bound. Stopping the protocol (as
+		// we do below in any case) aborts a send that is still waiting by then.
+		sendWatchdog := time.AfterFunc(
+			250*time.Millisecond,
+			c.Protocol.Stop,
+		)
 		msg := NewMsgDone()
 		sendErr = c.SendMessage(msg)
+		sendWatchdog.Stop()
 		if errors.Is(sendErr, protocol.ErrProtocolShuttingDown) {
 			sendErr = nil
 		}
